@@ -21,11 +21,12 @@ import stat
 import time
 
 from .. import core, build, hrun, sandbox
+from .. import shim as _shim
 
 PROP = "C18"
 CLEAN_OBJS = "fmtqfn.o getln.a sig.a stralloc.a substdio.a error.a str.a fs.a auto_qmail.o auto_split.o".split()
-SHIM = os.path.join(core.VERIF, "bin/nqshim.so")
-QLREC = os.path.join(core.VERIF, "bin/ql-rec")
+SHIM = _shim.tool("nqshim.so")
+QLREC = _shim.tool("ql-rec")
 OSSIFIED = 129600
 
 
